@@ -3,14 +3,15 @@
 # and the demonstration fails; without it the demonstration passes. Writes <dir>/confirm.json.
 # usage: tools/confirm_seeded.sh seeded/<id> [seeded/<id> ...]
 WT=/tmp/cs
+DIRS=(); for d in "$@"; do DIRS+=("$(realpath "$d")"); done
 if [ ! -d $WT ]; then git -C /repo worktree add -q $WT HEAD || exit 2; fi
 cd $WT || exit 2
 git checkout -q --detach "$(git -C /repo rev-parse HEAD)" 2>/dev/null
 if [ ! -f _b/build.ninja ]; then
   cmake -G Ninja -S . -B _b -DCMAKE_BUILD_TYPE=RelWithDebInfo -DCMAKE_CXX_FLAGS=-Wno-error -DYACLIB_TEST=ON >/dev/null 2>&1 || exit 2
 fi
-for d in "$@"; do
-  D=$(realpath "$d")
+for D in "${DIRS[@]}"; do
+  d=$(basename "$D")
   git checkout -q -- . ; git clean -fdq -e _b
   if ! git apply "$D/patch.diff"; then echo "{\"applies\": false}" > "$D/confirm.json"; continue; fi
   cmake --build _b -j6 > "$D/.build.log" 2>&1; brc=$?
